@@ -3,11 +3,23 @@ sys.path.insert(0, os.path.dirname(os.path.dirname(os.path.abspath(__file__))))
 import checklib
 
 
+def regen_wrappers(ctx):
+    """lean/Hive/Gen/C20_Wrap.lean: the package-level wrappers of app/daemon/daemon.go as data (harness/c20/wrapgen)."""
+    out = os.path.join(checklib.LEAN, "Hive", "Gen", "C20_Wrap.lean")
+    tmp = os.path.join(ctx.scratch, "C20_Wrap.lean")
+    rc, log = checklib.sh(["go", "run", "./c20/wrapgen", os.path.join(ctx.repo, "app/daemon/daemon.go"), tmp],
+                          cwd=checklib.HARNESS, timeout=600)
+    if rc != 0 or not os.path.exists(tmp):
+        return [{"kind": "wrapper-extractor", "detail": checklib.tail(log, 20)}]
+    checklib.write_gen(ctx, out, open(tmp).read())
+    return []
+
+
 def regen(ctx):
     if os.environ.get("C20_NO_SKEL"):   # development aid: judge a mutation by the dynamic tie alone
         return []
     f = "app/daemon/daemon.go:OrderedDaemon."
-    return checklib.regen_skeletons(ctx, [f + m for m in (
+    return regen_wrappers(ctx) + checklib.regen_skeletons(ctx, [f + m for m in (
         "BackgroundWorker", "runBackgroundWorker", "Start", "Run", "shutdown",
         "stopWorkers", "getWorkersAndShutdownOrder", "cleanupWorker", "clear", "Shutdown", "ShutdownAndWait",
         "GetRunningBackgroundWorkers", "IsStopped", "IsRunning", "ContextStopped")]
@@ -31,7 +43,10 @@ SPEC = {
                  "C20_skeleton_GetRunningBackgroundWorkers", "C20_skeleton_IsStopped", "C20_skeleton_IsRunning",
                  "C20_skeleton_ContextStopped", "C20_skeleton_type_OrderedDaemon", "C20_skeleton_type_worker",
                  "C20_running_list_ascending", "C20_running_list_complete", "C20_registered_all_running",
-                 "C20_reregistration_branch_dead", "C20_cancel_only_by_shutdown"],
+                 "C20_reregistration_branch_dead", "C20_cancel_only_by_shutdown",
+                 "C20_ext_refines", "C20_ext_statement", "C20_stopped_ctx_after_flag", "C20_stopped_ctx_before_cancel",
+                 "C20_stopped_ctx_before_return", "C20_stopped_monotone", "C20_stopped_observations",
+                 "C20_wrappers_forward_all_arguments", "C20_driver_step_sound"],
     "trusted_base": [
         "hand-written protocol model Hive/Model/Daemon.lean of app/daemon/daemon.go (critical sections of d.lock atomic; "
         "lock-free reads as separate steps), tied by (a) differential execution of sequential histories against the model "
